@@ -426,7 +426,28 @@ def chained_fit(ctx, ysrc, ytgt, xtgt, first):
     check(tuple(tuple(r) for r in new), f'after set_value on a source cell of Y, {first.upper()} asked for first')
 
 
+def neighbouring_targets(ctx):
+    """two array formulas next to each other (the first text a prefix of the second; the same text twice): a range
+    read over both shows each target's own elements, an array formula never reaches into the other target"""
+    from vp.checks.c05 import ARRAY_NEIGHBOURS
+    for spec, text, want in ARRAY_NEIGHBOURS:
+        for first in (True, False):
+            comp = wb.compile_mem(spec)
+            if not first:
+                for a in wb.all_addresses(spec):
+                    wb.outcome(comp.evaluate, a)
+            got = wb.outcome(comp.evaluate, text)
+            ctx.count('neighbouring_array_targets')
+            ctx.case(('neighbours', text, repr(spec['arrays']), first))
+            if got[0] != 'v' or not wb.same(got[1], want):
+                ctx.violation('array-formula-spreads-beyond-its-target/into-a-neighbouring-array-formula',
+                              f'evaluate({text!r}) over the array formulas {spec["arrays"]} gives {got!r}; the targets '
+                              f'hold {want!r}', {'kind': 'neighbours'})
+
+
 def run(ctx):
+    if ctx.shard == 0:
+        neighbouring_targets(ctx)
     rng = ctx.rng
     # ---- (3) an array formula reading the target of another array formula of a different shape
     k = 0
@@ -537,6 +558,9 @@ def _tt(x):
 
 
 def replay(ctx, case):
+    if case.get('kind') == 'neighbours':
+        neighbouring_targets(ctx)
+        return
     k = case['kind']
     if k == 'lift-fn-wb':
         lift_function_through_workbook(ctx, case['h'], case['w'], case['k'], case['via_offset'])
